@@ -54,6 +54,8 @@ pub struct FnInfo {
     pub name: String,
     pub self_mode: SelfMode,
     pub params: Vec<(String, Ty)>,
+    /// `const N: usize` generic parameters (explicit leading arguments of the generated function)
+    pub const_params: Vec<String>,
     /// parameters passed as `&mut <semantic-model type>`: threaded through (returned with the result)
     pub mut_params: Vec<String>,
     /// declared return type (`Ty::Res` for `Result`)
@@ -320,8 +322,15 @@ impl Globals {
                             Sel::From(_, s) => format!("from_{}", s),
                             _ => sig.ident.to_string(),
                         };
-                        if sig.generics.params.iter().any(|p| !matches!(p, syn::GenericParam::Lifetime(_))) {
-                            return err_at(path, sig.generics.span(), "generic fn is not supported");
+                        let mut const_params: Vec<String> = Vec::new();
+                        for gp in &sig.generics.params {
+                            match gp {
+                                syn::GenericParam::Lifetime(_) => {}
+                                syn::GenericParam::Const(c) if matches!(&c.ty, syn::Type::Path(tp) if tp.path.is_ident("usize")) => {
+                                    const_params.push(c.ident.to_string())
+                                }
+                                _ => return err_at(path, sig.generics.span(), "generic fn is not supported (only lifetimes and `const N: usize`)"),
+                            }
                         }
                         if sig.asyncness.is_some() || sig.unsafety.is_some() {
                             return err_at(path, sig.span(), "async/unsafe fn is not supported");
@@ -373,6 +382,7 @@ impl Globals {
                             self_mode,
                             params,
                             mut_params,
+                            const_params,
                             ret,
                             order,
                         });
@@ -388,8 +398,27 @@ impl Globals {
 pub fn is_model_type(t: &syn::Type) -> bool {
     match t {
         syn::Type::Path(p) => p.path.segments.last().map(|s| s.ident == "OctetsMut" || s.ident == "Octets").unwrap_or(false),
+        syn::Type::ImplTrait(_) => impl_trait_model(t).is_some(),
         _ => false,
     }
+}
+
+/// `impl io::Read` / `impl io::Write` parameters stand for the cursor models of RustSem (the only readers /
+/// writers the selected code is called with are `io::Cursor`s over byte slices)
+pub fn impl_trait_model(t: &syn::Type) -> Option<&'static str> {
+    if let syn::Type::ImplTrait(it) = t {
+        if it.bounds.len() == 1 {
+            if let syn::TypeParamBound::Trait(tb) = &it.bounds[0] {
+                let last = tb.path.segments.last()?.ident.to_string();
+                return match last.as_str() {
+                    "Read" => Some("ReadCursor"),
+                    "Write" => Some("WriteCursor"),
+                    _ => None,
+                };
+            }
+        }
+    }
+    None
 }
 
 pub const BUILTIN_NS: &str = "RustSem";
@@ -402,7 +431,7 @@ fn register_builtins(g: &mut Globals) {
         "Range".into(),
         StructInfo { ns: ns.clone(), name: "Range".into(), fields: vec![("start".into(), Ty::Int(64)), ("end".into(), Ty::Int(64))], view: false },
     );
-    for n in ["OctetsMut", "Octets", "BufferTooShortError"] {
+    for n in ["OctetsMut", "Octets", "BufferTooShortError", "ReadCursor", "WriteCursor"] {
         g.structs.insert(n.into(), StructInfo { ns: ns.clone(), name: n.into(), fields: vec![], view: false });
     }
     let bts = Ty::Named("BufferTooShortError".into());
@@ -415,6 +444,7 @@ fn register_builtins(g: &mut Globals) {
             self_mode: mode,
             params: params.into_iter().map(|(a, b)| (a.to_string(), b)).collect(),
             mut_params: vec![],
+            const_params: vec![],
             ret,
             order: 0,
         });
@@ -426,6 +456,10 @@ fn register_builtins(g: &mut Globals) {
     add("OctetsMut", "put_u64", SelfMode::Mut, vec![("v", Ty::Int(64))], res(Ty::Unit));
     add("OctetsMut", "put_varint", SelfMode::Mut, vec![("v", Ty::Int(64))], res(Ty::Unit));
     add("OctetsMut", "put_bytes", SelfMode::Mut, vec![("v", bytes.clone())], res(Ty::Unit));
+    let io_err = Ty::Opaque("RustSem.IoError".into());
+    let iores = |t: Ty| Ty::Res(Box::new(t), Box::new(io_err.clone()));
+    add("WriteCursor", "write_all", SelfMode::Mut, vec![("buf", bytes.clone())], iores(Ty::Unit));
+    add("WriteCursor", "write", SelfMode::Mut, vec![("buf", bytes.clone())], iores(Ty::Int(64)));
     add("Octets", "get_u8", SelfMode::Mut, vec![], res(Ty::Int(8)));
     add("Octets", "get_u16", SelfMode::Mut, vec![], res(Ty::Int(16)));
     add("Octets", "get_u32", SelfMode::Mut, vec![], res(Ty::Int(32)));
@@ -457,6 +491,10 @@ fn generic_args(seg: &syn::PathSegment) -> Vec<&syn::Type> {
 pub fn conv_ty(file: &str, t: &syn::Type, self_ty: Option<&str>, type_names: &[String]) -> R<Ty> {
     match t {
         syn::Type::Reference(r) => conv_ty(file, &r.elem, self_ty, type_names),
+        syn::Type::ImplTrait(_) => match impl_trait_model(t) {
+            Some(n) => Ok(Ty::Named(n.to_string())),
+            None => err_at(file, t.span(), "unsupported `impl Trait` (only `impl io::Read` / `impl io::Write`)"),
+        },
         syn::Type::Paren(p) => conv_ty(file, &p.elem, self_ty, type_names),
         syn::Type::Group(p) => conv_ty(file, &p.elem, self_ty, type_names),
         syn::Type::Slice(s) => Ok(Ty::List(Box::new(conv_ty(file, &s.elem, self_ty, type_names)?), ListKind::Slice)),
@@ -487,6 +525,9 @@ pub fn conv_ty(file: &str, t: &syn::Type, self_ty: Option<&str>, type_names: &[S
                 }
                 if name == "bool" {
                     return Ok(Ty::Bool);
+                }
+                if name == "i32" {
+                    return Ok(Ty::SInt(32));
                 }
                 if name == "Self" {
                     return match self_ty {
